@@ -141,7 +141,9 @@ class SignalBuffer:
                 raise IndexError
             elif iub > self._buffer_samples:
                 raise IndexError
-            return self._buffer[..., ilb:iub]
+            # Return a copy: a view would change under the caller as soon as
+            # more data is appended (or invalidated) after the lock is released.
+            return self._buffer[..., ilb:iub].copy()
 
     def append_data(self, data):
         if self._n_channels is not None:
